@@ -288,6 +288,19 @@ pub fn run(ctx: &mut Ctx) {
                                     ctx.count("impl_panics_on_altered_container");
                                 }
                                 ctx.count("container_level_verdicts");
+                                // the check of the *file* as a whole (`tools::open_pack(file).check()`,
+                                // what `jbk check` runs): a file holding several packs visits them in an
+                                // order that changes with every opening, so ask several times
+                                if a.must_fail {
+                                    for round in 0..6 {
+                                        let fv = file_check(file);
+                                        ctx.count("file_level_verdicts");
+                                        if fv == "true" {
+                                            ctx.fail(my, &format!("undetected-file-{}-{}", a.family, p.kind as char), &format!("open_pack({}).check() = true (opening #{}) after altering {} in pack kind {} ({}, {} packs in the file)", file.file_name().unwrap().to_string_lossy(), round, patch_str, p.kind as char, mode.name(), packs.len()));
+                                            break;
+                                        }
+                                    }
+                                }
                             }
                             ctx.emit(my, &format!("pk.check {} {} {} {} {}", pristine_path.display(), p.origin, p.size, p.kind as char, patch_str), coarse(&pv));
                             ctx.count(&format!("alt:{}", a.family));
